@@ -14,18 +14,24 @@ from .common import (BINARY_CLASSES, ORACLE_CLASS, UNARY_MINUS, PERCENT, PY_BINO
 
 PROPERTY = 'C01'
 EXPLANATION = (
-    'Decided from source: (C01.1) the precedence/associativity table read by the shunting-yard '
-    'loop realises Excel\'s operator classes as a relation; (C01.2) the complete 13x13 decision '
-    'table of the pop guard, extracted by partial evaluation of the operator branch, equals '
-    'pop(top,incoming) <=> class(top)>=class(incoming) (> for the right-associative unary minus); '
-    '(C01.3) reverse-Polish operand order: first pop -> right operand -> second argument of the '
-    'operator function; (C01.4) every infix/prefix operator maps to a function whose result is '
-    'param0 (op) param1 with the matching Python operator, the ExcelType arithmetic dunders use '
-    'their own operator with self first, division guards the value it divides by; (C01.5) the '
-    'complete decision table of the infix->prefix/noop switch for - and + over every token kind; '
-    '(C01.6) percent reaches the parser as a postfix operator, percent factors agree; (C01.7) '
-    'the scientific-notation guard accepts Excel number mantissas.'
-    ' (C01.8) an operator tree computes from the operand values of the current evaluation: nothing evaluation-dependent is stored on operator/operand nodes (effect analysis of the eval-path methods) and the trees (X+1)*2, -X, 2^-X, X*Y, X-Y-1 evaluated twice on the same nodes with changed cell values call every operator function with the values of that evaluation, evaluating every operand; (C01.6) also: a percent sign after a number literal yields ONE operand (value/100) or operand + postfix operator.')
+    'Decided from source, by interpreting it on witness formulas (constant propagation; nothing of the library is '
+    "imported or run): (C01.1) the precedence/associativity table read by the shunting-yard loop realises Excel's "
+    'operator classes as a relation; (C01.2) the tree FormulaParser.parse builds for =A1 op1 B1 op2 C1, for every '
+    'ordered pair of the 12 binary operators - tokenizer, its post-processing, the shunting-yard loop and build_ast '
+    "interpreted as written, the tree read back through the node classes' own eval with symbolic operator functions "
+    '- is ((A1 op1 B1) op2 C1) exactly when op1 binds at least as tightly as op2; (C01.3) reverse-Polish operand '
+    'order: first pop -> right operand -> second argument of the operator function; (C01.4) =A1 op B1 parsed and '
+    'evaluated through the real operator functions on number cells computes A1 op B1 for the operand pairs (7,2), '
+    '(2,7), (5,5), prefix minus negates, the arithmetic special methods of the value classes compute self (op) '
+    'other on converted operands and divide-by-a-converted-zero gives #DIV/0! for every spelling of zero; (C01.5) '
+    'unary minus / plus on either side of every binary operator, doubled, before parentheses, and percent literals '
+    "next to every binary operator give the trees of Excel's grammar; (C01.6) a percent sign after a number literal "
+    'yields one operand (value/100) or operand + postfix operator, percent reaches the parser as a postfix operator '
+    '(known finding F01), percent factors agree; (C01.7) the scientific-notation guard accepts Excel number '
+    'mantissas; (C01.8) nothing evaluation-dependent is stored on operator/operand nodes and operator trees '
+    'evaluated twice on the same nodes with changed cell values use the values of that evaluation; (C01.9) '
+    'parentheses, chains of one operator, mixed chains, and blanks around operators and at both ends leave / give '
+    'the expected trees.')
 NOT_DECIDED = ('that the tokenizer emits the right token stream for every rendering (blanks, '
                'redundant parentheses), and the numeric values computed')
 TRUSTED = ['Excel operator classes transcribed from the property statement (rules/common.py)']
